@@ -17,6 +17,7 @@ pub const FLOORS: &[&str] = &[
     "loc:abs", "label_offset_crosses_8000", "pc_offset_overflows_16_bits", "offset_beyond_i16_rejected",
     "inspect", "addr:0", "addr:orig-1", "addr:orig", "addr:x7FFF", "addr:x8000", "addr:xFDFF",
     "addr:xFE00", "addr:xFFFF", "origin_high", "origin_low", "predefined_breakpoint_outside_user_space",
+    "origin_zero", "origin_above_user_space",
 ];
 
 const CMDS_PER_SESSION: u64 = 120;
@@ -104,8 +105,10 @@ fn one_case(seed: u64, i: u64, n_sessions: u64, sweep_all: bool) -> CaseOut {
     let mut out = CaseOut::new();
     let mut rng = Rng::for_case(seed, "C13", i);
     let stack = rng.bool();
-    let orig: u16 = match rng.below(7) {
+    let orig: u16 = match rng.below(9) {
         6 => 0xFDF0,
+        7 => 0x0000,          // 0x0000 itself is a user address
+        8 => 0xFE10,          // image above the user area: no address at all is a legal target
         0 => 0x3000,
         1 => 0x7FF0 + rng.below(0x20) as u16, // image straddles 0x8000
         2 => 0x8000 + rng.below(0x6000) as u16,
@@ -116,6 +119,12 @@ fn one_case(seed: u64, i: u64, n_sessions: u64, sweep_all: bool) -> CaseOut {
     out.class(if orig >= 0x8000 { "origin_high" } else { "origin_low" });
     if orig == 0xFDF0 {
         out.class("predefined_breakpoint_outside_user_space");
+    }
+    if orig == 0 {
+        out.class("origin_zero");
+    }
+    if orig == 0xFE10 {
+        out.class("origin_above_user_space");
     }
     let (text, img) = program(&mut rng, orig);
     let labels: Vec<(String, u16)> = img.labels.iter().map(|(n, idx)| (n.clone(), orig + *idx as u16)).collect();
